@@ -618,15 +618,17 @@ def eval_index_case(rep, case, tier):
                 ok &= rep.check(cl == keep and all(cells[x] == src[x] for x in keep), f'{PID}:relabel_shift_in:cell-or-column-changed', f'{desc}: columns {cl} cells {cells}; source {src}', rp)
                 if not ok:
                     continue
-                depths = list(range(1, 1 + len(ks)))
-                back, exc = observe(lambda: res.relabel_shift_out(depths if len(depths) > 1 else depths[0], axis=0))
-                rep.count()
-                if exc is not None:
-                    rep.fail(f'{PID}:relabel_shift_out:raises:{type(exc).__name__}', f'{desc}.relabel_shift_out({depths}) raises {exc!r:.160}', dict(rp, op='shift_out'))
-                    continue
-                brl, bcl, bcells = cells_by_pos(back)
-                rep.check(brl == ilabels and sorted(bcl) == sorted(clabels) and all(bcells[x] == src[x] for x in clabels if x in bcells), f'{PID}:relabel_shift_out:round-trip-changed-cells',
-                          f'{desc}.relabel_shift_out({depths}): index {brl} columns {bcl} cells {bcells}; source index {ilabels} {src}', dict(rp, op='shift_out'))
+                depths0 = list(range(1, 1 + len(ks)))
+                # the levels may be named in any order: every moved-out column must still hold the cells of its own level
+                for depths in ([depths0] if len(depths0) == 1 else [depths0, depths0[::-1]]):
+                    back, exc = observe(lambda: res.relabel_shift_out(depths if len(depths) > 1 else depths[0], axis=0))
+                    rep.count()
+                    if exc is not None:
+                        rep.fail(f'{PID}:relabel_shift_out:raises:{type(exc).__name__}', f'{desc}.relabel_shift_out({depths}) raises {exc!r:.160}', dict(rp, op='shift_out'))
+                        continue
+                    brl, bcl, bcells = cells_by_pos(back)
+                    rep.check(brl == ilabels and sorted(bcl) == sorted(clabels) and all(bcells[x] == src[x] for x in clabels if x in bcells), f'{PID}:relabel_shift_out:round-trip-changed-cells',
+                              f'{desc}.relabel_shift_out({depths}): index {brl} columns {bcl} cells {bcells}; source index {ilabels} {src}', dict(rp, op='shift_out'))
             # ---- axis 1: a row becomes a column level and comes back
             for ri in sorted({0, r - 1}):
                 rlab = ilabels[ri]
